@@ -340,6 +340,27 @@ func (p *parser) parsePermissionExpressions(finalToken itemType, depth int) *ast
 			if root == nil {
 				return nil
 			}
+			if item.Typ == itemOperatorOr {
+				// '||' binds weaker than '&&': everything to its right, up
+				// to the end of this expression group, is its right operand.
+				rhs := p.parsePermissionExpressions(finalToken, depth)
+				if rhs == nil {
+					if !p.fatal {
+						p.addFatal(item, "expected an expression after %q", item.Val)
+					}
+					return nil
+				}
+				children := []ast.Child{root}
+				if rhs.Operation == ast.OperatorOr {
+					children = append(children, rhs.Children...)
+				} else {
+					children = append(children, rhs)
+				}
+				return &ast.SubjectSetRewrite{
+					Operation: ast.OperatorOr,
+					Children:  children,
+				}
+			}
 			newRoot := &ast.SubjectSetRewrite{
 				Operation: setOperation(item.Typ),
 				Children:  []ast.Child{root},
@@ -370,7 +391,7 @@ func (p *parser) parsePermissionExpressions(finalToken itemType, depth int) *ast
 				return nil
 			}
 			root = addChild(root, child)
-			expectExpression = true
+			expectExpression = false
 		}
 	}
 	return nil
